@@ -1,5 +1,6 @@
 import TantivyModel.Proofs.AggAlgebra
 import TantivyModel.Proofs.AggSpecEq
+import TantivyModel.Proofs.AggTrunc
 /-!
 # C14 — Aggregations equal a direct computation and do not depend on partitioning
 
@@ -123,14 +124,11 @@ theorem C14_segment_size_ge_size (field : Field) (missing : Option Int)
   simp only [h, if_true]
   omega
 
-/-- What segment-level truncation can do to a terms node (the documented approximation).
-Proved part: a truncated segment never invents or alters a bucket (each key keeps its exact
-entry or loses it entirely, so merged counts never over-estimate), and `sum_other_doc_count` /
-`doc_count_error_upper_bound` only grow.
-Full statement (checked on every generated case by the harness against the real code, not
-proved): `Σ shown counts + sum_other_doc_count = Σ true counts`, and for `_count desc`
-`true(k) − shown(k) ≤ doc_count_error_upper_bound` for every returned key `k`. -/
-theorem C14_terms_error_bound_partial {V : Type} (p : TermsP) (t : TermsI V) :
+/-- What segment-level truncation does to one segment's terms node: a truncated segment never
+invents or alters a bucket (each key keeps its exact entry or loses it entirely), and
+`sum_other_doc_count` / `doc_count_error_upper_bound` only grow.  The quantitative statement
+over whole partitions is `C14_terms_error_bound`. -/
+theorem C14_terms_truncation_local {V : Type} (p : TermsP) (t : TermsI V) :
     (∀ k, (termsCut p t).map.get k = t.map.get k ∨ (termsCut p t).map.get k = Option.none)
       ∧ t.other ≤ (termsCut p t).other ∧ t.err ≤ (termsCut p t).err := by
   unfold termsCut
@@ -177,6 +175,39 @@ theorem C14_histogram_dup_counterexample :
         (collect _ [[(0, [1, 2])]]) = [(0, 2, ())]
       ∧ evalAgg Int (.hist ⟨0, 10, 0, 0, Option.none, Option.none⟩ .none) [[(0, [1, 2])]] = [(0, 1, ())] := by
   decide +kernel
+
+/-- **The documented approximation of terms under segment truncation.**  For every partition
+into segments, every `segment_size`, every sub-request: let `H` be the tree the collector
+returns (each segment truncated to its first `segment_size` buckets in request order, then
+merged) and `true k` the number of matching documents having key `k`.  Then
+* no count over-estimates: `H(k) ≤ true k`;
+* for `_count desc`: `true k − H(k) ≤ doc_count_error_upper_bound`;
+* nothing is lost: `Σ_k H(k) + sum_other_doc_count = Σ_k true k` (over any duplicate-free list
+  `U` of keys containing every occurring key). -/
+theorem C14_terms_error_bound (p : TermsP) (sub : Req) (parts : List (List Doc)) (U : List Int)
+    (hU : U.Nodup) (hcov : ∀ part ∈ parts, ∀ d ∈ part, ∀ k ∈ termKeys p d, k ∈ U) :
+    let H : TermsI (Inter M sub) := mergeFruits (.terms p sub) (parts.map (collectSeg (.terms p sub)))
+    let true_ := fun k => (parts.flatten.filter (fun d => (termKeys p d).contains k)).length
+    (∀ k, cnt H.map k ≤ true_ k)
+      ∧ (p.order = .countDesc → ∀ k, true_ k ≤ cnt H.map k + H.err)
+      ∧ sumOver U (cnt H.map) + H.other = sumOver U true_ := by
+  intro H true_
+  have e : H = mergedTerms p sub parts := C14_mergeFruits_eq_fold (.terms p sub) _
+  rw [e]
+  exact terms_error_bound p sub parts U hU hcov
+
+/-- the final stage keeps the books as well: what the `size` cut removes goes to
+`sum_other_doc_count` (buckets below `min_doc_count` are dropped, as in the code) -/
+theorem C14_terms_final_conservation {V : Type} (p : TermsP) (all : List (Int × Nat × V)) (other err : Nat) :
+    sumCounts (termsFinal p all other err).1 + (termsFinal p all other err).2.1
+      = sumCounts (all.filter (fun b => decide (p.minDocCount ≤ b.2.1))) + other := by
+  unfold termsFinal
+  simp only []
+  have h := perm_sumCounts (sortBuckets_perm p.order (all.filter (fun b => decide (p.minDocCount ≤ b.2.1))))
+  rw [← h]
+  conv => rhs; rw [← List.take_append_drop p.size (sortBuckets p.order (all.filter (fun b => decide (p.minDocCount ≤ b.2.1))))]
+  rw [sumCounts_append]
+  omega
 
 /-- merging after a serialisation round trip that is the identity on intermediate trees gives
 the same result (that postcard's round trip *is* the identity is tested by the harness, not
@@ -272,6 +303,8 @@ example : ∀ d ∈ exDocs1 ++ exDocs2, DocOK exReq d := by
   simp only [exDocs1, exDocs2, List.cons_append, List.nil_append, List.mem_cons, List.not_mem_nil, or_false] at hd
   rcases hd with rfl | rfl | rfl | rfl <;> (simp only [DocOK, exReq]; decide)
 example : [0, 10, 20].Pairwise (fun a b : Int => a < b) := by decide
+example : ([1, 2, 3] : List Int).Nodup ∧ ∀ d ∈ exTDocs, ∀ k ∈ termKeys ⟨0, Option.none, 2, 2, 1, .countDesc⟩ d, k ∈ [1, 2, 3] := by
+  decide
 /-- a segment with three distinct terms and `segment_size = 2` is truncated: one bucket goes to
 `sum_other_doc_count`, its count is the error bound -/
 example : ((harvest (M := Int) exTReq (collect exTReq exTDocs)).other,
